@@ -21,9 +21,18 @@ def device_task(seed):
     problems = []
     n_tuples = 0
     sig = set()
+    holder = {"g": None}
+
+    class RngProxy(object):
+        """One sampler object serves many consecutive updates (as in a run); each call sees its own scripted generator."""
+
+        def __getattr__(self, name):
+            return getattr(holder["g"], name)
+
+    samplers = {}
+    ab_pool = [(0.01, 0.01)] + [(math.exp(r.uniform(math.log(1e-3), math.log(1e3))), math.exp(r.uniform(math.log(1e-3), math.log(1e3)))) for _ in range(6)]
     for _ in range(250):
-        a = 0.01 if r.random() < 0.3 else math.exp(r.uniform(math.log(1e-3), math.log(1e3)))
-        b = 0.01 if r.random() < 0.3 else math.exp(r.uniform(math.log(1e-3), math.log(1e3)))
+        a, b = r.choice(ab_pool)
         alpha = math.exp(r.uniform(math.log(1e-10), math.log(1e3)))
         n = r.choice([1, 2, 3, 10, 100, 10000, r.randint(1, 10000)])
         K = r.choice([1, n, r.randint(1, n)])
@@ -39,7 +48,11 @@ def device_task(seed):
                 gval = 1.0
             vals = {"beta": eta, "standard_gamma": gval, "gamma": gval}
             g = SimGenerator(mode="choose", script=[j], continuous=lambda kind, params: vals[kind])
-            s = GammaPriorConcentrationSampler(a, b, rng=g)
+            if (a, b) not in samplers or not hasattr(samplers[(a, b)], "_rng"):
+                samplers[(a, b)] = GammaPriorConcentrationSampler(a, b, rng=g)
+            s = samplers[(a, b)]
+            if hasattr(s, "_rng"):
+                s._rng = g  # the same sampler object serves consecutive updates, each under its own scripted generator
             try:
                 new = float(s.sample(alpha, K, n))
             except Exception as e:
